@@ -31,6 +31,7 @@ package main
 
 import (
 	"fmt"
+	"go/constant"
 	"go/token"
 	"go/types"
 	"os"
@@ -42,6 +43,11 @@ import (
 
 // c14Debug (dev aid): with CTVERIF_C14_DEBUG set, print every obligation recorded so far.
 func c14Debug(r *Run) {
+	if os.Getenv("CTVERIF_C14_SSA") != "" {
+		if fn := r.P.Func(os.Getenv("CTVERIF_C14_SSA")); fn != nil {
+			fn.WriteTo(os.Stderr)
+		}
+	}
 	if os.Getenv("CTVERIF_C14_DEBUG") == "" {
 		return
 	}
@@ -52,11 +58,29 @@ func c14Debug(r *Run) {
 
 // ---- path-wise execution ---------------------------------------------------------------------
 
-// c14State: a block entered with the φ-values and nil facts of the path behind it.
+// c14Obj: what a local variable that lives in memory holds on the path — its scalar parts by field
+// path ("" = the variable itself, "0.1" = field 1 of field 0); zero: a part not listed has its zero
+// value (otherwise it is unknown).
+type c14Obj struct {
+	zero bool
+	f    map[string]ssa.Value
+}
+
+func (o *c14Obj) clone() *c14Obj {
+	n := &c14Obj{zero: o.zero, f: make(map[string]ssa.Value, len(o.f))}
+	for k, v := range o.f {
+		n.f[k] = v
+	}
+	return n
+}
+
+// c14State: a block entered with what the path behind it has established.
 type c14State struct {
 	b     *ssa.BasicBlock
-	phis  map[*ssa.Phi]ssa.Value // φ → the value that arrived (never itself a resolved φ)
-	facts map[ssa.Value]string   // value → "nil" | "non", decided by a test on this path
+	vals  map[ssa.Value]ssa.Value // φ / load / field selection → the value it has on this path (fully resolved)
+	facts map[ssa.Value]string    // value → "nil" | "non", decided by a test on this path
+	mem   map[*ssa.Alloc]*c14Obj  // private locals that live in memory
+	snaps map[ssa.Value]*c14Obj   // struct-typed values read from such locals
 }
 
 // c14RetVal: one value a return may yield, with what is known about it on the path.
@@ -75,20 +99,18 @@ type c14Exec struct {
 	Stopped map[*ssa.BasicBlock]bool // stop blocks arrived at (not executed)
 	Rets    []c14RetVal
 	Over    bool // budget exhausted: nothing may be concluded
+	private map[*ssa.Alloc]bool
+	zeros   map[string]*ssa.Const
 }
 
 const c14Budget = 20000
 
 func (x *c14Exec) Has(in ssa.Instruction) bool { return in != nil && x.Blocks[in.Block()] }
 
-func c14Resolve(v ssa.Value, phis map[*ssa.Phi]ssa.Value) ssa.Value {
+func c14Resolve(v ssa.Value, vals map[ssa.Value]ssa.Value) ssa.Value {
 	for i := 0; i < 16; i++ {
-		ph, ok := v.(*ssa.Phi)
-		if !ok {
-			return v
-		}
-		w, ok := phis[ph]
-		if !ok {
+		w, ok := vals[v]
+		if !ok || w == v {
 			return v
 		}
 		v = w
@@ -96,17 +118,182 @@ func c14Resolve(v ssa.Value, phis map[*ssa.Phi]ssa.Value) ssa.Value {
 	return v
 }
 
+// c14Private: the local is reached only by loads and stores of itself and of its fields — no call,
+// closure, φ or conversion ever sees its address, so what it holds is what this function last
+// stored on the path taken.
+func c14Private(a *ssa.Alloc) bool {
+	var ok func(p ssa.Value, depth int) bool
+	ok = func(p ssa.Value, depth int) bool {
+		refs := p.Referrers()
+		if refs == nil || depth > 4 {
+			return false
+		}
+		for _, ref := range *refs {
+			switch y := ref.(type) {
+			case *ssa.Store:
+				if y.Addr != p || y.Val == p {
+					return false
+				}
+			case *ssa.UnOp:
+				if y.Op != token.MUL {
+					return false
+				}
+			case *ssa.FieldAddr:
+				if !ok(y, depth+1) {
+					return false
+				}
+			case *ssa.DebugRef:
+			default:
+				return false
+			}
+		}
+		return true
+	}
+	return ok(a, 0)
+}
+
+// addrOf: p is the address of (a part of) a private local.
+func (x *c14Exec) addrOf(p ssa.Value) (*ssa.Alloc, string, bool) {
+	switch y := p.(type) {
+	case *ssa.Alloc:
+		pr, known := x.private[y]
+		if !known {
+			pr = c14Private(y)
+			x.private[y] = pr
+		}
+		return y, "", pr
+	case *ssa.FieldAddr:
+		a, path, ok := x.addrOf(y.X)
+		if !ok {
+			return nil, "", false
+		}
+		if path != "" {
+			path += "."
+		}
+		return a, fmt.Sprintf("%s%d", path, y.Field), true
+	}
+	return nil, "", false
+}
+
+func isStruct(t types.Type) bool {
+	_, ok := t.Underlying().(*types.Struct)
+	return ok
+}
+
+func (x *c14Exec) zero(t types.Type) ssa.Value {
+	k := t.String()
+	if c, ok := x.zeros[k]; ok {
+		return c
+	}
+	var c *ssa.Const
+	if b, ok := t.Underlying().(*types.Basic); ok && b.Info()&types.IsBoolean != 0 {
+		c = ssa.NewConst(constant.MakeBool(false), t)
+	} else {
+		c = ssa.NewConst(nil, t)
+	}
+	x.zeros[k] = c
+	return c
+}
+
+// step executes the instructions of c.b that move values through private locals.
+func (x *c14Exec) step(c *c14State) {
+	for _, in := range c.b.Instrs {
+		switch y := in.(type) {
+		case *ssa.Alloc:
+			if _, _, ok := x.addrOf(y); ok {
+				c.mem[y] = &c14Obj{zero: true, f: map[string]ssa.Value{}}
+			}
+		case *ssa.Store:
+			a, path, ok := x.addrOf(y.Addr)
+			if !ok {
+				continue
+			}
+			o := c.mem[a]
+			if o == nil {
+				o = &c14Obj{f: map[string]ssa.Value{}}
+				c.mem[a] = o
+			}
+			v := c14Resolve(y.Val, c.vals)
+			switch {
+			case !isStruct(y.Val.Type()):
+				if _, isArr := y.Val.Type().Underlying().(*types.Array); isArr {
+					delete(o.f, path)
+					o.zero = false
+					continue
+				}
+				o.f[path] = v
+			case path == "":
+				if k, isConst := v.(*ssa.Const); isConst && k.Value == nil {
+					c.mem[a] = &c14Obj{zero: true, f: map[string]ssa.Value{}}
+				} else if sn := c.snaps[v]; sn != nil {
+					c.mem[a] = sn.clone()
+				} else {
+					c.mem[a] = &c14Obj{f: map[string]ssa.Value{}}
+				}
+			default:
+				// a struct stored into a part of the local: that part is no longer known
+				for k := range o.f {
+					if k == path || strings.HasPrefix(k, path+".") {
+						delete(o.f, k)
+					}
+				}
+				o.zero = false
+			}
+		case *ssa.UnOp:
+			if y.Op != token.MUL {
+				continue
+			}
+			a, path, ok := x.addrOf(y.X)
+			if !ok {
+				continue
+			}
+			o := c.mem[a]
+			if o == nil {
+				continue
+			}
+			switch {
+			case isStruct(y.Type()):
+				if path == "" {
+					c.snaps[y] = o.clone()
+				}
+			default:
+				if v, has := o.f[path]; has {
+					c.vals[y] = v
+				} else if o.zero {
+					if _, isArr := y.Type().Underlying().(*types.Array); !isArr {
+						c.vals[y] = x.zero(y.Type())
+					}
+				}
+			}
+		case *ssa.Field:
+			sn := c.snaps[c14Resolve(y.X, c.vals)]
+			if sn == nil || isStruct(y.Type()) {
+				continue
+			}
+			k := fmt.Sprint(y.Field)
+			if v, has := sn.f[k]; has {
+				c.vals[y] = v
+			} else if sn.zero {
+				if _, isArr := y.Type().Underlying().(*types.Array); !isArr {
+					c.vals[y] = x.zero(y.Type())
+				}
+			}
+		}
+	}
+}
+
 // c14Run executes fn under σ from block `from` (nil = entry), not entering the stop blocks
 // (`from` itself is executed even when listed).
 func c14Run(r *Run, fn *ssa.Function, s Sigma, from *ssa.BasicBlock, stop map[*ssa.BasicBlock]bool) *c14Exec {
-	x := &c14Exec{r: r, fn: fn, s: s, stop: stop, Blocks: map[*ssa.BasicBlock]bool{}, Stopped: map[*ssa.BasicBlock]bool{}}
+	x := &c14Exec{r: r, fn: fn, s: s, stop: stop, Blocks: map[*ssa.BasicBlock]bool{}, Stopped: map[*ssa.BasicBlock]bool{},
+		private: map[*ssa.Alloc]bool{}, zeros: map[string]*ssa.Const{}}
 	if from == nil {
 		from = fn.Blocks[0]
 	}
 	r.Valuations++
 	seen := map[string]bool{}
 	retSeen := map[string]bool{}
-	work := []c14State{{b: from, phis: map[*ssa.Phi]ssa.Value{}, facts: map[ssa.Value]string{}}}
+	work := []*c14State{{b: from, vals: map[ssa.Value]ssa.Value{}, facts: map[ssa.Value]string{}, mem: map[*ssa.Alloc]*c14Obj{}, snaps: map[ssa.Value]*c14Obj{}}}
 	for len(work) > 0 {
 		c := work[len(work)-1]
 		work = work[:len(work)-1]
@@ -123,10 +310,11 @@ func c14Run(r *Run, fn *ssa.Function, s Sigma, from *ssa.BasicBlock, stop map[*s
 		if len(c.b.Instrs) == 0 {
 			continue
 		}
+		x.step(c)
 		switch last := c.b.Instrs[len(c.b.Instrs)-1].(type) {
 		case *ssa.Return:
 			if n := len(last.Results); n > 0 {
-				v := c14Resolve(last.Results[n-1], c.phis)
+				v := c14Resolve(last.Results[n-1], c.vals)
 				rv := c14RetVal{ret: last, val: v, status: x.nilStatus(v, c, 0)}
 				rk := fmt.Sprintf("%p|%p|%s", last, v, rv.status)
 				if !retSeen[rk] {
@@ -155,13 +343,13 @@ func c14Run(r *Run, fn *ssa.Function, s Sigma, from *ssa.BasicBlock, stop map[*s
 						n.facts[tested] = "non"
 					}
 				}
-				work = append(work, *n)
+				work = append(work, n)
 			}
 			continue
 		}
 		for _, sb := range c.b.Succs {
 			if n := x.enter(c, sb); n != nil {
-				work = append(work, *n)
+				work = append(work, n)
 			}
 		}
 	}
@@ -169,8 +357,9 @@ func c14Run(r *Run, fn *ssa.Function, s Sigma, from *ssa.BasicBlock, stop map[*s
 }
 
 // enter: the state in which sb is entered from c.b — φ-nodes of sb take the value arriving over this
-// edge; what cannot be referred to from sb on (its definition does not dominate sb) is dropped.
-func (x *c14Exec) enter(c c14State, sb *ssa.BasicBlock) *c14State {
+// edge; what cannot be referred to from sb on (its definition does not dominate sb and nothing kept
+// refers to it) is dropped.
+func (x *c14Exec) enter(c *c14State, sb *ssa.BasicBlock) *c14State {
 	if x.stop[sb] {
 		x.Stopped[sb] = true
 		return nil
@@ -182,10 +371,14 @@ func (x *c14Exec) enter(c c14State, sb *ssa.BasicBlock) *c14State {
 			break
 		}
 	}
-	n := &c14State{b: sb, phis: map[*ssa.Phi]ssa.Value{}, facts: map[ssa.Value]string{}}
-	for ph, v := range c.phis {
-		if ph.Block() != sb && ph.Block().Dominates(sb) {
-			n.phis[ph] = v
+	dominates := func(v ssa.Value) bool {
+		in, ok := v.(ssa.Instruction)
+		return !ok || in.Block() == nil || (in.Block() != sb && in.Block().Dominates(sb))
+	}
+	n := &c14State{b: sb, vals: map[ssa.Value]ssa.Value{}, facts: map[ssa.Value]string{}, mem: map[*ssa.Alloc]*c14Obj{}, snaps: map[ssa.Value]*c14Obj{}}
+	for k, v := range c.vals {
+		if dominates(k) {
+			n.vals[k] = v
 		}
 	}
 	if pi >= 0 {
@@ -195,36 +388,63 @@ func (x *c14Exec) enter(c c14State, sb *ssa.BasicBlock) *c14State {
 				break
 			}
 			if pi < len(ph.Edges) {
-				if v := c14Resolve(ph.Edges[pi], c.phis); v != ssa.Value(ph) {
-					n.phis[ph] = v
+				if v := c14Resolve(ph.Edges[pi], c.vals); v != ssa.Value(ph) {
+					n.vals[ph] = v
 				}
 			}
 		}
 	}
 	for v, f := range c.facts {
-		if in, ok := v.(ssa.Instruction); ok && in.Block() != nil && !in.Block().Dominates(sb) {
-			continue
+		if dominates(v) {
+			n.facts[v] = f
 		}
-		n.facts[v] = f
+	}
+	for a, o := range c.mem {
+		if a.Block() == sb || dominates(a) {
+			n.mem[a] = o.clone()
+		}
+	}
+	used := map[ssa.Value]bool{}
+	for _, v := range n.vals {
+		used[v] = true
+	}
+	for v, o := range c.snaps {
+		if dominates(v) || used[v] {
+			n.snaps[v] = o // never modified once taken
+		}
 	}
 	return n
 }
 
-func (x *c14Exec) key(c c14State) string {
+func (x *c14Exec) key(c *c14State) string {
 	var parts []string
-	for ph, v := range c.phis {
-		parts = append(parts, fmt.Sprintf("%p=%p", ph, v))
+	for k, v := range c.vals {
+		parts = append(parts, fmt.Sprintf("%p=%p", k, v))
 	}
 	for v, f := range c.facts {
 		parts = append(parts, fmt.Sprintf("%p:%s", v, f))
+	}
+	obj := func(tag string, k any, o *c14Obj) {
+		var fs []string
+		for p, v := range o.f {
+			fs = append(fs, fmt.Sprintf("%s=%p", p, v))
+		}
+		sort.Strings(fs)
+		parts = append(parts, fmt.Sprintf("%s%p{%v %s}", tag, k, o.zero, strings.Join(fs, " ")))
+	}
+	for a, o := range c.mem {
+		obj("m", a, o)
+	}
+	for v, o := range c.snaps {
+		obj("s", v, o)
 	}
 	sort.Strings(parts)
 	return fmt.Sprintf("%d|%s", c.b.Index, strings.Join(parts, ","))
 }
 
 // nilStatus: what is known on this path about v being nil.
-func (x *c14Exec) nilStatus(v ssa.Value, c c14State, depth int) string {
-	v = c14Resolve(v, c.phis)
+func (x *c14Exec) nilStatus(v ssa.Value, c *c14State, depth int) string {
+	v = c14Resolve(v, c.vals)
 	if isNilConst(v) {
 		return "nil"
 	}
@@ -244,7 +464,7 @@ func (x *c14Exec) nilStatus(v ssa.Value, c c14State, depth int) string {
 			if e == ssa.Value(ph) {
 				continue
 			}
-			n := x.nilStatus(e, c14State{b: ph.Block().Preds[i], phis: c.phis, facts: c.facts}, depth+1)
+			n := x.nilStatus(e, &c14State{b: ph.Block().Preds[i], vals: c.vals, facts: c.facts}, depth+1)
 			if n == "" || (res != "" && n != res) {
 				return ""
 			}
@@ -264,22 +484,22 @@ func (x *c14Exec) nilStatus(v ssa.Value, c c14State, depth int) string {
 // evalCond decides the branch condition of c.b.  When the condition is a nil test of a value whose
 // status is unknown, the value and the test's polarity (eq: true means "is nil") are returned so
 // that the outcome can be remembered on either side.
-func (x *c14Exec) evalCond(cond ssa.Value, c c14State) (t Tri, tested ssa.Value, eq bool) {
+func (x *c14Exec) evalCond(cond ssa.Value, c *c14State) (t Tri, tested ssa.Value, eq bool) {
 	t = x.eval(cond, c, 0)
 	if t != U {
 		return t, nil, false
 	}
-	if v, e, ok := nilCmpOf(c14Resolve(cond, c.phis)); ok {
-		return U, c14Resolve(v, c.phis), e
+	if v, e, ok := nilCmpOf(c14Resolve(cond, c.vals)); ok {
+		return U, c14Resolve(v, c.vals), e
 	}
 	return U, nil, false
 }
 
-func (x *c14Exec) eval(v ssa.Value, c c14State, depth int) Tri {
+func (x *c14Exec) eval(v ssa.Value, c *c14State, depth int) Tri {
 	if depth > 8 {
 		return U
 	}
-	v = c14Resolve(v, c.phis)
+	v = c14Resolve(v, c.vals)
 	if b, ok := isBoolConst(v); ok {
 		if b {
 			return T
@@ -408,7 +628,7 @@ outer:
 		}
 		for _, m := range noExec {
 			if ok && bad.Has(m) {
-				ok, detail = false, fmt.Sprintf("after an error of %s the %s at %s may still execute", name, instrName(m), r.Where(m))
+				ok, detail = false, fmt.Sprintf("after an error of %s the leaf may still be rewritten (store at %s)", name, r.Where(m))
 			}
 		}
 		r.Check(key+"@"+name, ok, r.Where(c), detail)
@@ -594,4 +814,63 @@ func c14LayoutAsked(r *Run, fix *ssa.Function, probes []c14Probe) {
 			r.Check(key+"["+name+"]", ok, r.Where(q.call), detail)
 		}
 	}
+}
+
+// c14OtherLengthTest: FixLogLeaf has no test of len(h) against 0 but compares len(h) with some other
+// value — the atom of that comparison, "" otherwise (the emptiness test exists, or no test of the
+// length at all: the caller's obligations then fail as undecided).
+func c14OtherLengthTest(r *Run, fix *ssa.Function, h string) string {
+	atoms := r.D.AtomsOf(fix)
+	if _, ok := atoms["ord(0, len("+h+"))"]; ok {
+		return ""
+	}
+	for _, k := range keysOf(atoms) {
+		ci := atoms[k]
+		if ci.Kind == "ord" && (ci.A == "len("+h+")" || ci.B == "len("+h+")") {
+			return k
+		}
+	}
+	return ""
+}
+
+// c14StoredChainTrailing (C14.R3): per decoding of a stored chain (asn1.Unmarshal in FixLogLeaf) — the
+// remainder is looked at by a branch condition, and once the decoder succeeded with bytes left over
+// every return that may execute yields a non-nil error (…:chain-trailing-bytes) and the leaf is not
+// written (stored-chain-trailing-data).  Returns the number of decodings decided.
+func c14StoredChainTrailing(r *Run, fix *ssa.Function, stores []*ssa.Store) int {
+	n := 0
+	atoms := r.D.AtomsOf(fix)
+	for _, c := range CallsTo(fix, "asn1.Unmarshal") {
+		errv, rest := CallResult(c, 1), CallResult(c, 0)
+		if errv == nil || rest == nil {
+			r.Fail("FixLogLeaf:stored-chain-trailing-data", r.Where(c), "result of asn1.Unmarshal ignored")
+			continue
+		}
+		n++
+		k1 := "FixLogLeaf:" + shortErr(r.D.D(CallArgs(c)[1])) + ":chain-trailing-bytes"
+		ra := "ord(0, len(" + r.D.D(rest) + "))"
+		s := Sigma{"nil?" + r.D.D(errv): "nil", ra: "<"}
+		x := c14Run(r, fix, s, c.Block(), nil)
+		ok, why := true, ""
+		switch {
+		case atoms[ra] == nil:
+			ok, why = false, "undecided: no branch condition of "+FuncName(fix)+" tests "+ra+" (the check for bytes after the stored chain is missing)"
+		case x.Over:
+			ok, why = false, "undecided: too many paths through "+FuncName(fix)
+		case len(x.Rets) == 0:
+			ok, why = false, "undecided: no return is reachable under "+s.String()
+		case x.mayYieldNil() != nil:
+			ok, why = false, fmt.Sprintf("under %s %s", s, x.describe(x.mayYieldNil()))
+		}
+		r.Check(k1, ok, r.Where(c), "bytes after the stored issuance chain are an error: every return that may then execute yields a non-nil error "+why)
+		if ok {
+			for _, st := range stores {
+				if x.Has(st) {
+					ok, why = false, "the leaf is rewritten at "+r.Where(st)
+				}
+			}
+		}
+		r.Check("FixLogLeaf:stored-chain-trailing-data", ok, r.Where(c), "bytes after the stored issuance chain are an error and the leaf stays as it is "+why)
+	}
+	return n
 }
